@@ -71,7 +71,7 @@ struct Registry {
   bool adopted_while_others_live = false;
   bool deleter_under_guard = false;
   bool switch_in_guard_op = false;
-  int destroyed_count = 0, retired_count = 0;
+  int destroyed_count = 0, retired_count = 0, nested_retires = 0;
   int logical_thread[vrt::MAXT]; // which program a runtime thread executes
   bool program_done[MAXTH + 1];
   uint64_t hist = 0;
@@ -122,16 +122,42 @@ struct NodeT<Rc, false> : Rc::template enable_concurrent_ptr<NodeT<Rc, false>, 1
   int id;
   uint64_t canary;
   bool via_deleter = false;
+  NodeT* child = nullptr; // --param nested_retire=1: an unpublished object that the deleter of this one retires
   explicit NodeT(int id_) : id(id_), canary(canary_of(id_)) {}
   ~NodeT() {
     if (!via_deleter) vrt::fail("destroy_without_deleter", "object %d destroyed without its deleter being invoked", id);
   }
 };
+void note_nested_retire(int id) {
+  NodeSt& s = R.nodes[id];
+  if (s.retired) vrt::fail("harness_error", "child %d retired twice", id);
+  s.retired = 1;
+  s.retired_by = (int8_t)vrt::self();
+  R.retired_count++;
+  R.nested_retires++;
+}
 template <class Rc>
 void DelT<Rc>::operator()(NodeT<Rc, false>* n) const {
   note_destroy(n->id, id, "deleter");
   n->via_deleter = true;
+  NodeT<Rc, false>* child = n->child;
   delete n;
+  if (child) {
+    // a deleter that retires another (unreachable) object, like the deleter of a tree node that retires its children
+    using CP = typename Rc::template concurrent_ptr<NodeT<Rc, false>, 1>;
+    const int cid = child->id;
+    try {
+      typename CP::guard_ptr g{typename CP::marked_ptr(child)};
+      note_nested_retire(cid);
+      g.reclaim(DelT<Rc>{cid});
+    } catch (const std::exception&) {
+      // no hazard pointer / era slot left on this thread: destroy it directly
+      R.nodes[cid].retired = 1;
+      R.nodes[cid].retired_by = (int8_t)vrt::self();
+      R.retired_count++;
+      DelT<Rc>{cid}(child);
+    }
+  }
 }
 
 template <class Rc>
@@ -173,8 +199,18 @@ struct Client {
     R.nodes[id].dummy = dummy;
     R.nodes[id].pub_cell = -1;
     vrt::TagScope ts(vrt::TAG_CLIENT);
-    return new Node(id);
+    Node* n = new Node(id);
+    if constexpr (!S::lfrc) {
+      // every third program object owns a child that only its deleter knows
+      if (nested_retire && !dummy && !making_child && id % 3 == 0) {
+        making_child = true;
+        n->child = alloc_node();
+        making_child = false;
+      }
+    }
+    return n;
   }
+  bool nested_retire = false, making_child = false;
 
   struct OpScope { // marks a guard operation in progress and detects a context switch inside it
     int me;
@@ -579,6 +615,7 @@ struct Client {
   void run() {
     const bool c02 = vh::prop_is("C02"), c17 = vh::prop_is("C17");
     algebra = vrt::param("algebra", 0) != 0;
+    nested_retire = vrt::param("nested_retire", 0) != 0;
     ncells = 1 + (int)vrt::choose(3);
     int total, max_live;
     if (algebra) {
@@ -674,6 +711,7 @@ struct Client {
       vrt::label("handed_over");
     }
     if (R.retired_count > 0) vrt::label("some_object_retired");
+    if (R.nested_retires > 0) vrt::label("object_retired_by_a_deleter");
     if (!c17) return;
 
     // ---- C17: bookkeeping is recycled.  Phase 2: identical threads strictly one after the other; every one of
